@@ -63,7 +63,11 @@ impl Prop for C07 {
         let mut steps = Vec::new();
         for _ in 0..n {
             let (bytes, _fam, _kinds) = hostile(&mut rng);
-            let cfg = if rng.pct(40) { 0 } else { (rng.next_u64() as u16) & CFG_ALL };
+            let mut cfg = if rng.pct(40) { 0 } else { (rng.next_u64() as u16) & CFG_ALL };
+            if rng.pct(15) {
+                // the caller does not give up on the stream after a failed call
+                cfg |= crate::session::CFG_CARRY_ON;
+            }
             let plan = draw_plan(&mut rng, &bytes, 30);
             steps.push(Step { input: Input::Raw(bytes), plan, cfg });
         }
